@@ -45,6 +45,8 @@ def run(ctx):
     R.clause('c', 'the lottery is re-evaluated for this message, this signature and the bounded index')
     R.clause('d', 'stake / keys used for lottery, membership and pairing come from the proven registration entries')
     R.clause('e', 'single-signature verification checks signature and lottery')
+    R.clause('g', 'the BLS aggregation coefficients bind the whole signature set (no coefficient is predictable)')
+    R.clause('h', 'the Merkle batch membership check accepts only a single final node equal to the committed root')
 
     # ---- (a) chain of entry points down to preliminary_verify
     s_prelim = Sink('preliminary_verify', PRELIM, 'ok')
@@ -123,3 +125,9 @@ def run(ctx):
     ctx.arg_origin('e', SINGLE_VERIFY, BLS_VERIFY, 1, require=['call:*concatenate_with_message', 'param:msg'],
                    desc='(msg) <- concatenate_with_message')
     ctx.arg_origin('e', SINGLE_VERIFY, BLS_VERIFY, 2, require=['param:pk'], desc='<- pk')
+
+    # ---- (g), (h): inside the two cryptographic sinks (structure only)
+    from props.shared import bls_aggregate_binding, batch_path_final_check
+    bls_aggregate_binding(ctx, 'g')
+    ctx.r1('g', VERIFY_AGG, Sink('BlsSignature::aggregate', 'mithril_stm::*::BlsSignature::aggregate', 'ok'))
+    batch_path_final_check(ctx, 'h')
